@@ -1,33 +1,52 @@
 import Nsq.Model.Relay
 /-
 Wire-level model of ONE `Publish` of apps/nsq_to_http through the `http.Client` that `main()` builds
-(audit round 7, item C3). Core Lean only (linked into drv_e8).
+(audit round 7, item C3; round 11: the client of fix F45b). Core Lean only (linked into drv_e8).
 
 `Nsq.Model.Relay.Http.step` takes the status code *the publisher sees* (`resp a`). Between the
-destination and the publisher sits `http.Client.Do`, which by default FOLLOWS redirects
-(net/http `redirectBehavior` + `defaultCheckRedirect`):
+destination and the publisher sits `http.Client.Do` (net/http `Client.do`, `redirectBehavior`):
 
-* 301 / 302 / 303 with a `Location`: the request is repeated at the new URL as a **GET without a
-  body** (a GET stays a GET; its URL — query string included — is replaced by the `Location`);
-* 307 / 308 with a `Location`: method and body are kept (the body can be re-read: `bytes.Buffer`);
+* 301 / 302 / 303 with a `Location`: the follow-up request is a **GET without a body** (a GET stays a GET);
+* 307 / 308 with a `Location`: method and body are kept (the body is re-read through `GetBody`: `bytes.Buffer`);
+* the URL of the follow-up request is the `Location` — for the GET publisher the message travels in the query
+  string, so the follow-up GET carries the message iff the `Location` carries that query (`Loc.keepsQuery`:
+  the destination's choice, e.g. an http→https or trailing-slash redirect keeps it, `Location: /elsewhere` drops it);
 * any other status, or no `Location` header: the answer is handed to the caller;
-* the 11th request of a chain is refused: "stopped after 10 redirects" (an error);
-* with `CheckRedirect = func(…) error { return http.ErrUseLastResponse }` (fix F45) the first answer
-  is handed to the caller whatever it is: `follow = false`.
+* before a follow-up request is sent the client asks `CheckRedirect(req, via)` — here a `Check`: a function of
+  the method of the upcoming request, the method of the first request (`via[0].Method`) and `len(via)`:
+  `nil` = send it (`Verdict.follow`), `http.ErrUseLastResponse` = hand the 3xx answer to the caller
+  (`Verdict.useLast`), any other error = `Do` fails (`Verdict.error`).
+
+Three clients:
+* `checkDefault` — no `CheckRedirect` (tree before fix F45): net/http's `defaultCheckRedirect`, follow, the 11th
+  request is refused with the error "stopped after 10 redirects";
+* `checkNever` — fix F45 (/repo 2a7fc8c) `return http.ErrUseLastResponse`: the first answer is handed back;
+* `checkSameMethod` — fix F45b: `if req.Method != via[0].Method || len(via) >= 10 { return http.ErrUseLastResponse };
+  return nil`: redirects that keep the method are followed (307/308 of a POST with the body, every redirect of a
+  GET), a POST answered 301/302/303 is handed back, and so is the answer to the 10th request of a chain.
+Which `Check` a tree has is *translated* from its `noRedirect` by go2lean (`Nsq.Tie.ToolsRelayRedirect`).
 
 The destination side is arbitrary: `World` gives the answer of every endpoint to every request
 (method, carried message bytes).  Endpoints are numbered; the tool's configured addresses are the
 endpoints `0 … naddr-1`, a `Location` may name any endpoint.  What a request *carries* is the POST
-body, or for the GET publisher the message inside the query string of the configured URL; a
-followed redirect of a GET goes to the `Location` URL, which does not contain the message
-(assumption of the `follow = true` shape only: the destination does not echo the query).
+body, or for the GET publisher the message inside the query string.
+`doReq` has a `fuel` argument only because a `Check` that never stops would follow a redirect loop until the
+request timeout of the client ends it (an error): for the three clients above ten requests are the most that
+is ever made (`Nsq.Proofs.RelayRedirect.doReq_fuel_irrelevant`), `redirectFuel = 10`.
 -/
 namespace Nsq.Model.RelayRedirect
 open Nsq.Model.Relay
 
-/-- the answer of an endpoint: status line (+ optional `Location` naming endpoint `loc`), or a transport error -/
+/-- the `Location` of a redirect answer: the endpoint it names, and whether it still carries the query string
+of the request it answers (only relevant for the GET publisher, whose message travels in the query) -/
+structure Loc where
+  ep : Nat
+  keepsQuery : Bool
+deriving DecidableEq, Repr
+
+/-- the answer of an endpoint: status line (+ optional `Location`), or a transport error -/
 inductive Ans
-  | status (code : Nat) (loc : Option Nat)
+  | status (code : Nat) (loc : Option Loc)
   | err
 deriving DecidableEq, Repr
 
@@ -52,67 +71,94 @@ def finalOf : Ans → Option Nat
   | .status c _ => some c
   | .err => none
 
-/-- the follow-up request the client prepares for this answer: target endpoint, keep method+body -/
-def followUp : Ans → Option (Nat × Bool)
+/-- the follow-up request the client prepares for this answer: `Location`, keep method+body -/
+def followUp : Ans → Option (Loc × Bool)
   | .status code (some next) =>
     match redirectKind code with
     | some keep => some (next, keep)
     | none => none
   | _ => none
 
-/-- `http.Client.Do`; `left` = how many more requests `defaultCheckRedirect` allows (9 after the first) -/
-def doReq (follow : Bool) (w : World) : Nat → Nat → Bool → Option Bytes → List Wire × Option Nat
-  | 0, ep, post, payload =>
-    match followUp (w ep post payload) with
-    | none => ([⟨ep, post, payload, finalOf (w ep post payload)⟩], finalOf (w ep post payload))
-    | some _ =>
-      if follow then ([⟨ep, post, payload, finalOf (w ep post payload)⟩], none)     -- stopped after 10 redirects
-      else ([⟨ep, post, payload, finalOf (w ep post payload)⟩], finalOf (w ep post payload))
-  | left + 1, ep, post, payload =>
-    match followUp (w ep post payload) with
-    | none => ([⟨ep, post, payload, finalOf (w ep post payload)⟩], finalOf (w ep post payload))
-    | some nk =>
-      if follow then
-        (⟨ep, post, payload, finalOf (w ep post payload)⟩ ::
-           (doReq follow w left nk.1 (post && nk.2) (if post && nk.2 then payload else none)).1,
-         (doReq follow w left nk.1 (post && nk.2) (if post && nk.2 then payload else none)).2)
-      else ([⟨ep, post, payload, finalOf (w ep post payload)⟩], finalOf (w ep post payload))
+/-- what `CheckRedirect` returns: `nil`, `http.ErrUseLastResponse`, another error -/
+inductive Verdict | follow | useLast | error
+deriving DecidableEq, Repr
 
-/-- `defaultCheckRedirect`: `len(via) >= 10` is an error -/
-def redirectLimit : Nat := 9
+/-- `CheckRedirect(req, via)` as a function of `req.Method = "POST"`, `via[0].Method = "POST"`, `len(via)` -/
+abbrev Check := Bool → Bool → Nat → Verdict
+
+/-- net/http `defaultCheckRedirect`: `len(via) >= 10` is an error -/
+def checkDefault : Check := fun _ _ nvia => if nvia ≥ 10 then .error else .follow
+/-- fix F45: `return http.ErrUseLastResponse` -/
+def checkNever : Check := fun _ _ _ => .useLast
+/-- fix F45b: `if req.Method != via[0].Method || len(via) >= 10 { return http.ErrUseLastResponse }; return nil` -/
+def checkSameMethod : Check := fun reqPost via0Post nvia =>
+  if reqPost ≠ via0Post ∨ nvia ≥ 10 then .useLast else .follow
+
+/-- the result codes of a translated `CheckRedirect` body (`go2lean` kind `clientlit`):
+0 = `return nil`, 1 = `return http.ErrUseLastResponse`, anything else = another error -/
+def verdictOfCode (n : Nat) : Verdict := if n = 0 then .follow else if n = 1 then .useLast else .error
+
+/-- what the follow-up request carries: a POST re-sends its body iff method and body are kept (307/308), a request
+that became a GET carries nothing; a GET carries the message iff it still does and the `Location` keeps the query -/
+def nextPayload (post : Bool) (lk : Loc × Bool) (payload : Option Bytes) : Option Bytes :=
+  if post then (if lk.2 then payload else none)
+  else (if lk.1.keepsQuery then payload else none)
+
+/-- `http.Client.Do`; `post0` = method of the first request (`via[0]`), `nvia` = requests already made -/
+def doReq (check : Check) (w : World) (post0 : Bool) : Nat → Nat → Nat → Bool → Option Bytes → List Wire × Option Nat
+  | 0, _, _, _, _ => ([], none)      -- a chain the `Check` never stops ends by the client's request timeout
+  | fuel + 1, nvia, ep, post, payload =>
+    match followUp (w ep post payload) with
+    | none => ([⟨ep, post, payload, finalOf (w ep post payload)⟩], finalOf (w ep post payload))
+    | some lk =>
+      match check (post && lk.2) post0 (nvia + 1) with
+      | .useLast => ([⟨ep, post, payload, finalOf (w ep post payload)⟩], finalOf (w ep post payload))
+      | .error => ([⟨ep, post, payload, finalOf (w ep post payload)⟩], none)
+      | .follow =>
+        (⟨ep, post, payload, finalOf (w ep post payload)⟩ ::
+           (doReq check w post0 fuel (nvia + 1) lk.1.ep (post && lk.2) (nextPayload post lk payload)).1,
+         (doReq check w post0 fuel (nvia + 1) lk.1.ep (post && lk.2) (nextPayload post lk payload)).2)
+
+/-- enough for every client whose `Check` stops at `len(via) >= 10` -/
+def redirectFuel : Nat := 10
 
 /-- the wire requests of one `Publisher.Publish(addr, body)` -/
-def wireOf (follow post : Bool) (w : World) (a : Nat) (body : Bytes) : List Wire :=
-  (doReq follow w redirectLimit a post (some body)).1
+def wireOf (check : Check) (post : Bool) (w : World) (a : Nat) (body : Bytes) : List Wire :=
+  (doReq check w post redirectFuel 0 a post (some body)).1
 
 /-- the status the publisher sees -/
-def seenBy (follow post : Bool) (w : World) (body : Bytes) : Nat → Option Nat :=
-  fun a => (doReq follow w redirectLimit a post (some body)).2
+def seenBy (check : Check) (post : Bool) (w : World) (body : Bytes) : Nat → Option Nat :=
+  fun a => (doReq check w post redirectFuel 0 a post (some body)).2
 
 /-- `HandleMessage` + go-nsq's response rule, the destinations seen through the client -/
-def stepVia (follow : Bool) (c : Http.Cfg) (counter : Nat) (m : Msg) (sampledOut : Bool) (pick : Nat) (w : World) :
+def stepVia (check : Check) (c : Http.Cfg) (counter : Nat) (m : Msg) (sampledOut : Bool) (pick : Nat) (w : World) :
     Nat × List Out :=
-  Http.step c counter m sampledOut pick (seenBy follow c.post w m.body)
+  Http.step c counter m sampledOut pick (seenBy check c.post w m.body)
 
 /-- a destination received the message: some wire request to (a chain starting at) address `a`
 carried the body, with the publisher's method, and was answered with an accepted status -/
-def Delivered (follow post : Bool) (w : World) (a : Nat) (body : Bytes) : Prop :=
-  ∃ x ∈ wireOf follow post w a body, x.payload = some body ∧ x.post = post ∧ Http.accepts post x.status = true
+def Delivered (check : Check) (post : Bool) (w : World) (a : Nat) (body : Bytes) : Prop :=
+  ∃ x ∈ wireOf check post w a body, x.payload = some body ∧ x.post = post ∧ Http.accepts post x.status = true
 
 /-- all wire requests of a handling, in the order made -/
-def wireTrace (follow post : Bool) (w : World) : List Out → List Wire
+def wireTrace (check : Check) (post : Bool) (w : World) : List Out → List Wire
   | [] => []
-  | .request a body _ :: os => wireOf follow post w a body ++ wireTrace follow post w os
-  | _ :: os => wireTrace follow post w os
+  | .request a body _ :: os => wireOf check post w a body ++ wireTrace check post w os
+  | _ :: os => wireTrace check post w os
 
 /-! ### driver -/
 open Nsq.Line
 
-/-- `200`, `302>1` (Location = endpoint 1), `302` (no Location), `x` (transport error) -/
+/-- `1` → endpoint 1, the query is dropped; `1q` → endpoint 1, the `Location` repeats the query of the request -/
+def locOf (l : String) : Option Loc :=
+  if l.endsWith "q" then (String.ofList l.toList.dropLast).toNat?.map (fun k => ⟨k, true⟩)
+  else l.toNat?.map (fun k => ⟨k, false⟩)
+
+/-- `200`, `302>1` (Location = endpoint 1), `307>1q` (… with the query kept), `302` (no Location), `x` (transport error) -/
 def ansOf (s : String) : Ans :=
   match s.splitOn ">" with
   | [c] => match c.toNat? with | some n => .status n none | none => .err
-  | [c, l] => match c.toNat?, l.toNat? with
+  | [c, l] => match c.toNat?, locOf l with
     | some n, some k => .status n (some k)
     | some n, none => .status n none
     | _, _ => .err
@@ -123,6 +169,10 @@ def worldOf (s : String) : World :=
   let xs := (s.splitOn ",").map ansOf
   fun ep _ _ => match xs[ep]? with | some a => a | none => .err
 
+/-- the client of an `rd` op: `0` = `checkNever` (F45), `1` = `checkDefault` (no CheckRedirect), `2` = `checkSameMethod` (F45b) -/
+def checkOf (s : String) : Option Check :=
+  if s = "0" then some checkNever else if s = "1" then some checkDefault else if s = "2" then some checkSameMethod else none
+
 def wireStr (x : Wire) : String :=
   s!"{x.ep}:{if x.post then "POST" else "GET"}:{match x.payload with | some b => hex b | none => "none"}:{match x.status with | some c => toString c | none => "x"}"
 
@@ -130,16 +180,16 @@ def wireStr (x : Wire) : String :=
 def respStr (id : Nat) (os : List Out) : String :=
   if Out.fin id ∈ os then "fin" else if Out.req id ∈ os then "req" else "none"
 
-/-- `rd follow mode naddr post counter id body world` → what is observable from outside the real binary:
+/-- `rd client mode naddr post counter id body world` → what is observable from outside the real binary:
 the FIN/REQ the source receives and the requests the destinations receive, in order -/
 def driverLine (ws : List String) : String :=
   match ws with
-  | ["rd", follow, mode, naddr, post, counter, id, body, world] =>
-    match b01 follow, modeOf mode, naddr.toNat?, b01 post, counter.toNat?, id.toNat?, unhex body with
-    | some follow, some mode, some naddr, some post, some counter, some id, some body =>
+  | ["rd", client, mode, naddr, post, counter, id, body, world] =>
+    match checkOf client, modeOf mode, naddr.toNat?, b01 post, counter.toNat?, id.toNat?, unhex body with
+    | some check, some mode, some naddr, some post, some counter, some id, some body =>
       let w := worldOf world
-      let r := stepVia follow ⟨mode, naddr, post, false⟩ counter ⟨id, body⟩ false 0 w
-      s!"{respStr id r.2} | {" ".intercalate ((wireTrace follow post w r.2).map wireStr)}"
+      let r := stepVia check ⟨mode, naddr, post, false⟩ counter ⟨id, body⟩ false 0 w
+      s!"{respStr id r.2} | {" ".intercalate ((wireTrace check post w r.2).map wireStr)}"
     | _, _, _, _, _, _, _ => "bad-op"
   | _ => "bad-op"
 
